@@ -2311,11 +2311,11 @@ fn main() {
     for _ in 0..n_sc {
         gen_sc(&mut rng, &mut out, pi);
     }
-    let n_mg = args.num("merges", 2000, 60000);
+    let n_mg = args.num("merges", 2000, 40000);
     for _ in 0..n_mg {
         gen_mg(&mut rng, &mut out, pi);
     }
-    let n_cs = args.num("calls", 1500, 40000);
+    let n_cs = args.num("calls", 1500, 30000);
     for _ in 0..n_cs {
         gen_cs(&mut rng, &mut out, pi);
     }
